@@ -33,22 +33,67 @@ theorem wordStores_eq (cells : List Nat) (c : Nat) :
     rw [ih (c + 1)]
     simp [accValue, locValue, locTy, ordValue, Function.comp_def, Nat.add_assoc, Nat.add_comm 1]
 
+/-! #### the writer's annotation, read off a probe run
+
+  `write` is run once on a probe input (generation 4, a record without words): the orderings its four
+  accesses name are the writer fields of the annotation `writeAnn` — found by evaluation, not written in the
+  proof, so that a refactoring that strengthens an ordering changes `writeAnn`, not the theorem. -/
+
+/-- the last event of a log -/
+def lastOf : List Value → Value
+  | [] => .unit
+  | [x] => x
+  | _ :: y :: r => lastOf (y :: r)
+
+/-- the ordering a load / store / fence event names -/
+def evOrd : Value → Option SL.Ord
+  | .ext "load" [_, o, _] => ordOfValue o
+  | .ext "store" [_, _, o] => ordOfValue o
+  | .ext "fence" [o] => ordOfValue o
+  | _ => none
+
+def isFenceEv : Value → Bool
+  | .ext "fence" _ => true
+  | _ => false
+
+def writeProbeLog : List Value :=
+  match run (Code.ctxWith 0 DictShm.ext [] (rawInp fun _ => 4)) "ShmWrite for ShmWriter::write" (writerValue 72)
+      [wordsValue []] with
+  | .ok _ _ l => l
+  | _ => []
+
+/-- the annotation of the writer found in the source (reader fields: the defaults, not used by `writerProg`) -/
+def writeAnn : SL.Ann :=
+  { wLoad := (evOrd (writeProbeLog.getD 0 .unit)).getD .relaxed,
+    wStore1 := (evOrd (writeProbeLog.getD 1 .unit)).getD .relaxed,
+    wFence := if isFenceEv (writeProbeLog.getD 2 .unit) then evOrd (writeProbeLog.getD 2 .unit) else none,
+    wStore2 := (evOrd (lastOf writeProbeLog)).getD .relaxed }
+
 set_option maxRecDepth 8000 in
-set_option maxHeartbeats 1000000 in
+set_option maxHeartbeats 2000000 in
 theorem write_tie (inp : Nat → Nat) (cells : List Nat) (segsize : Nat) (nowNs : Int) (sizes : List (String × Nat)) :
     run (Code.ctxWith nowNs DictShm.ext sizes (rawInp inp)) "ShmWrite for ShmWriter::write" (writerValue segsize)
       [wordsValue cells]
-    = .ok .unit (writerValue segsize) ((SL.writerProg {} (inp 0 % 65536) cells).map accValue) := by
+    = .ok .unit (writerValue segsize) ((SL.writerProg writeAnn (inp 0 % 65536) cells).map accValue) := by
   obtain ⟨g, hg, hgi, hgn⟩ : ∃ g : Nat, g < 65536 ∧ ((inp 0 : Nat) : Int) % 65536 = (g : Int) ∧ inp 0 % 65536 = g :=
     ⟨inp 0 % 65536, Nat.mod_lt _ (by decide), by omega, rfl⟩
   simp [rs_eval, rs_code, rawInp, writerValue, wordsValue, hgi, hgn]
-  simp only [SL.writerProg, List.map_append, List.map_cons, List.map_nil, accValue, locValue, locTy, ordValue,
+  -- the annotation: evaluate the probe run
+  simp only [SL.writerProg, List.map_append, List.map_cons, List.map_nil, accValue, locValue, locTy,
     wordStores_eq, Nat.zero_add, List.cons_append, List.nil_append]
+  simp [writeAnn, writeProbeLog, evOrd, isFenceEv, lastOf, ordOfValue, rs_eval, rs_code, rawInp, writerValue, wordsValue,
+    wordStores, ordValue, evStore, evLoad, evFence]
   rw [genFinish_int, genStart_int]
   clear hgi hgn
   -- the arithmetic: parity test by `& 1`, first store by `wrapping_add` or `| 1`, roll-over by `== 0`
   try simp only [lor_one]
-  split_ifs <;> simp_all [ordering, evStore, evLoad, evFence] <;> omega
+  split_ifs <;> simp_all [ordering, evStore, evLoad, evFence, accValue, ordValue, locValue, locTy] <;> omega
+
+/-- the orderings `C02` needs of the writer: the fence after the first generation store and the second store
+    are (at least) `Release` -/
+theorem writeAnn_rel : (writeAnn.wStore2.isRel && (writeAnn.wFence.map SL.Ord.isRel).getD false) = true := by
+  simp [writeAnn, writeProbeLog, evOrd, isFenceEv, lastOf, ordOfValue, rs_eval, rs_code, rawInp, writerValue, wordsValue,
+    wordStores, SL.Ord.isRel, evStore, evLoad, evFence]
 
 /-! ### the reader -/
 
@@ -136,22 +181,46 @@ theorem wordLoads_attempt (inp : Nat → Nat) (pos : Nat) :
 abbrev sctx (nowNs : Int) (sizes : List (String × Nat)) (inp : Nat → Nat) : Ctx :=
   Code.ctxWith nowNs DictShm.ext sizes (rawInp inp)
 
-/-! ### names of the local variables, read off the generated AST (so that a renaming is not a proof change) -/
+/-- how a loop state is built from: remaining budget, generation to confirm, cached generation, cached
+    record, log, position in the input stream -/
+abbrev MkSt := Nat → Nat → Nat → List Nat → List Value → Nat → St
 
-/-- the names bound by the top-level `let x = ..;` statements of a body, in order -/
-def topLets : List Stmt → List String
+/-! ### the layout of the loop state, read off a PROBE run (so that names, number and order of the local
+  variables, helper functions and accessor methods are not in the proofs)
+
+  The statements of `snapshot` before its retry loop are run on a probe input — version 7, generation 10, cached
+  generation 3 — for which no early return is taken; the environment this leaves is the layout of the state at
+  the head of the loop, and `relabel` puts the actual values where the probe values are: the generation to
+  confirm for 10, the version for 7, the retry budget for the literal 1000000 (if the loop counts down), the
+  reader for the probe reader. -/
+
+/-- the statements before the first top-level loop of a body -/
+def loopPrefix : List Stmt → List Stmt
   | [] => []
-  | .letS (.bind x) _ _ _ :: rest => x :: topLets rest
-  | _ :: rest => topLets rest
+  | s :: rest =>
+    match s with
+    | .expr (.whileE _ _) _ => []
+    | .expr (.forE _ _ _) _ => []
+    | .expr (.loopE _) _ => []
+    | _ => s :: loopPrefix rest
 
-def nth : List String → Nat → String
-  | [], _ => ""
-  | x :: _, 0 => x
-  | _ :: r, n + 1 => nth r n
+def probeInp : Nat → Nat := fun k => if k = 0 then 7 else 10
 
-/-- the i-th top-level local of `ShmReader::snapshot`: 0 the version cell, 1 the version value, 2 the
-    generation cell, 3 the generation to confirm, 4 (while form only) the retry counter -/
-def nm (i : Nat) : String := nth (topLets Code.fn_ShmReader__snapshot_stmts) i
+/-- the state the statements before the loop leave on the probe input -/
+def probeSt : St :=
+  match evalBlock 150 (sctx 0 [] probeInp) sfr (loopPrefix Code.fn_ShmReader__snapshot_stmts)
+      { env := [("self", readerValue 3 [])], log := [], pos := 0 } with
+  | .val _ st => st
+  | _ => { env := [], log := [] }
+
+/-- the local variables at the head of the retry loop on the probe input -/
+def probeEnv : List (String × Value) := probeSt.env
+
+/-- the actual values for the probe values -/
+def relabel (tc : IntTy) (k g1 v cg : Nat) (cache : List Nat) : Value → Value
+  | .int t n => if n = 10 then .int t g1 else if n = 7 then .int t v else if n = 1000000 then .int tc k else .int t n
+  | .struct "ShmReader" _ => readerValue cg cache
+  | x => x
 
 /-- the first top-level `for` of a body: pattern, iterator, body (`findWhile`'s counterpart) -/
 def findFor : List Stmt → Option (Pat × Expr × List Stmt)
@@ -161,11 +230,56 @@ def findFor : List Stmt → Option (Pat × Expr × List Stmt)
     | .expr (.forE p it b) _ => some (p, it, b)
     | _ => findFor rest
 
-/-! ### the retry loop of the CODE in closed form, generic in how the interpreter state is laid out -/
+/-- the state at the head of the retry loop: `tc`, `k` the type and value of the retry counter (if there is one),
+    `g1` the generation to confirm, `v` the version read -/
+def LSg (tc : IntTy) (v : Nat) : MkSt := fun k g1 cg cache lg pos =>
+  { env := probeEnv.map fun p => (p.1, relabel tc k g1 v cg cache p.2), log := lg, pos := pos }
 
-/-- how a loop state is built from: remaining budget, generation to confirm, cached generation, cached
-    record, log, position in the input stream -/
-abbrev MkSt := Nat → Nat → Nat → List Nat → List Value → Nat → St
+/-! #### the reader's annotation, read off the probe
+
+  The orderings of the version load and of the first generation load are those of the two events of the probe run of
+  the prefix; the fence and the re-check are those of ONE run of the loop body from the probe state (the `N` cell
+  loads come first, then the fence if there is one, then the generation load).  The writer fields are `writeAnn`'s. -/
+
+def logOf : Res → List Value
+  | .val _ st => st.log
+  | .ret _ st => st.log
+  | .brk _ st => st.log
+  | .cont st => st.log
+  | _ => []
+
+/-- the accesses of one run of the loop body on the probe state -/
+def bodyLog : List Value :=
+  match findWhile Code.fn_ShmReader__snapshot_stmts, findFor Code.fn_ShmReader__snapshot_stmts with
+  | some (_, b), _ => logOf (evalBlock 150 (sctx 0 [] probeInp) sfr b { env := probeEnv, log := [], pos := 2 })
+  | none, some (p, _, b) =>
+    logOf (evalFor 150 (sctx 0 [] probeInp) sfr p b [.int .infer 0] { env := probeEnv, log := [], pos := 2 })
+  | none, none => []
+
+/-- the annotation found in the source: `writeAnn` for the writer, the probe for the reader -/
+def snapAnn : SL.Ann :=
+  { writeAnn with
+    rVersion := (evOrd (probeSt.log.getD 0 .unit)).getD .relaxed,
+    rGen1 := (evOrd (probeSt.log.getD 1 .unit)).getD .relaxed,
+    rFence := if isFenceEv (bodyLog.getD 7 .unit) then evOrd (bodyLog.getD 7 .unit) else none,
+    rGen2 := (evOrd (lastOf bodyLog)).getD .relaxed }
+
+/-- evaluate the probe of the loop body: `h : bodyLog = <the concrete events>` (no event is written in a proof) -/
+macro "eval_bodyLog " h:ident : tactic => `(tactic| (
+  have $h : bodyLog = bodyLog := rfl
+  conv at $h =>
+    rhs
+    simp [bodyLog, probeEnv, probeSt, loopPrefix, probeInp, logOf, findFor, evalFor_cons, evalFor_nil, rs_eval, rs_code,
+      sfr, rawInp, readerValue, wordsValue, SL.N, DictShm.readWords, DictShm.wordLoads]))
+
+/-- evaluate the probe of the prefix: `h : probeSt.log = <the concrete events>` -/
+macro "eval_preLog " h:ident : tactic => `(tactic| (
+  have $h : probeSt.log = probeSt.log := rfl
+  conv at $h =>
+    rhs
+    simp [probeSt, loopPrefix, probeInp, rs_eval, rs_code, sfr, rawInp, readerValue, wordsValue]))
+
+/-! ### the retry loop of the CODE in closed form, generic in how the interpreter state is laid out -/
 
 /-- same recursion as `SL.readerLoop`, but with the whole interpreter state (`mk` lays out the first
     iteration, `mk'` the later ones: the `while` form changes the type of its counter after the first
@@ -175,11 +289,11 @@ def loopOutG (tinp : Nat → Nat) (cg : Nat) (cache : List Nat) (mk' : MkSt) : M
   | mk, k + 1, pos, g1, lg =>
     if g1 = tinp (pos + SL.N) then
       .ret (.enumv "Ok" [wordsValue (SL.attemptCells tinp pos)])
-        (mk (k + 1) g1 g1 (SL.attemptCells tinp pos) (lg ++ (SL.attemptAccs {} tinp pos).map accValue)
+        (mk (k + 1) g1 g1 (SL.attemptCells tinp pos) (lg ++ (SL.attemptAccs snapAnn tinp pos).map accValue)
           (pos + SL.N + 1))
     else
       loopOutG tinp cg cache mk' mk' k (pos + SL.N + 1) (if tinp (pos + SL.N) % 2 = 0 then tinp (pos + SL.N) else g1)
-        (lg ++ (SL.attemptAccs {} tinp pos).map accValue)
+        (lg ++ (SL.attemptAccs snapAnn tinp pos).map accValue)
 
 /-- a layout that keeps the reader in `self` and the log where the rest of the function looks for them -/
 def GoodMk (mk : MkSt) : Prop :=
@@ -198,7 +312,7 @@ def LoopPost (r : Res) (lg : List Value) (cg : Nat) (cache : List Nat) : List SL
 
 theorem loopOutG_spec (tinp : Nat → Nat) (cg : Nat) (cache : List Nat) (mk' : MkSt) (hmk' : GoodMk mk') :
     ∀ k mk, GoodMk mk → ∀ pos g1 lg r, loopOutG tinp cg cache mk' mk k pos g1 lg = r →
-      LoopPost r lg cg cache (SL.readerLoop {} tinp k pos g1) := by
+      LoopPost r lg cg cache (SL.readerLoop snapAnn tinp k pos g1) := by
   intro k
   induction k with
   | zero =>
@@ -213,8 +327,8 @@ theorem loopOutG_spec (tinp : Nat → Nat) (cg : Nat) (cache : List Nat) (mk' : 
     split
     · exact ⟨_, rfl, (hmk _ _ _ _ _ _).1, (hmk _ _ _ _ _ _).2⟩
     · have := ih mk' hmk' (pos + SL.N + 1) (if tinp (pos + SL.N) % 2 = 0 then tinp (pos + SL.N) else g1)
-        (lg ++ (SL.attemptAccs {} tinp pos).map accValue) _ rfl
-      rcases hrl : SL.readerLoop {} tinp k (pos + SL.N + 1) (if tinp (pos + SL.N) % 2 = 0 then tinp (pos + SL.N) else g1)
+        (lg ++ (SL.attemptAccs snapAnn tinp pos).map accValue) _ rfl
+      rcases hrl : SL.readerLoop snapAnn tinp k (pos + SL.N + 1) (if tinp (pos + SL.N) % 2 = 0 then tinp (pos + SL.N) else g1)
         with ⟨accs, _ | ⟨g', cells⟩⟩
       · rw [hrl] at this
         obtain ⟨st', h1, h2, h3⟩ := this
